@@ -6,23 +6,31 @@ Run-time side (implementation only, public API): every literal is compiled in fa
 into two engines and queried; to_python of the answers, unification with terms built through
 atom/functor/listpair/makelist (both directions, same and other engine, and a mutated term that must NOT unify),
 object identity of atoms per engine."""
-import random
+import functools, io, os, random, shutil, subprocess, sys
 from lib import ast_io
 from lib.terms import g_str, g_list
 from lib import terms as TM
 
 ID = 'C16'
-IMPORTS = ['Lang.Ast', 'Lang.Front', 'Lang.Denote']
+IMPORTS = ['Lang.Ast', 'Lang.Front', 'Lang.Denote', 'Lang.RunC16']
 THEOREMS = ['C16_quoted_atom_roundtrip', 'C16_quoted_atom_in_context', 'C16_quoted_atom_literal', 'C16_plain_atom_token',
             'C16_numeral_token', 'C16_numeral_leading_zeros', 'C16_numeral_roundtrip', 'C16_variable_token',
             'C16_list_pattern_folds', 'C16_list_literal', 'C16_anon_fresh', 'C16_anon_name_inj', 'C16_anon_not_source',
             'C16_literal_denotation', 'C16_makelist_listpair_chain', 'C16_to_python_literal', 'C16_to_python_compiled_literal',
-            'C16_api_term_unifies', 'C16_atom_identity', 'C16_atom_unify_by_name']
+            'C16_api_term_unifies', 'C16_atom_identity', 'C16_atom_unify_by_name',
+            'C16_file_bytes_roundtrip', 'C16_file_entry_point', 'C16_cli_reads_text', 'C16_file_decoding_strict', 'C16_file_encoding_injective', 'C16_file_ascii_bytes']
 RULE = ('programs of facts fact_i(L, V1..Vn), rules body_i(R, V1..Vn) :- R = L and at_j(A) for random literals L: plain and quoted '
         'atoms (spaces, quotes, line breaks, tabs, non-ASCII incl. astral and combining code points, digits-only, empty, [] ), '
         'integers with leading zeros and bignums, named and anonymous variables, compound terms with plain, quoted and operator '
         'names, nesting up to depth 6, lists of 0-4 items, [..|T] patterns, \'.\'(H,T). Each literal is queried with its variables '
-        'unbound and bound to ground values, compared with API-built terms from the same and from another engine. '
+        'unbound and bound to ground values, compared with API-built terms from the same and from another engine. All literals of a program '
+        'also together in one clause head and one clause body; groups of 2-4 DIFFERENT literals that print alike when quotes are left out '
+        '(a subterm / a run of arguments with its commas / the inside of a list pattern as ONE atom; number, variable, _ as atoms); atoms of '
+        'characters that text layers treat specially (all str.splitlines breaks, CR LF, lone CR, Unicode spaces, controls, byte order marks); '
+        'clause layout LF / CR LF / CR; the fact/body/atom clauses compiled through every entry point (string, file of the UTF-8 bytes, the '
+        'command line from a file and from standard input) must denote the same terms. Files given as BYTES (UTF-8 of a random atom, damaged '
+        'or extended by overlong forms, surrogates, truncated / stray bytes, boundary code points, byte order marks, CR forms) read through '
+        'the file / command-line / standard-input entry points against the model\'s strict UTF-8 decoder and front end. '
         'Non-trivial: the literal contains a quoted atom with a quote, line break or non-ASCII character, or a list pattern. '
         'Distinct by hash of the program text.')
 TRUSTED_BASE = [
@@ -32,6 +40,7 @@ TRUSTED_BASE = [
     'the run-time half of C16 (to_python, atom table, unification of API-built terms with compiled literals) is CHECKED on the implementation, not proved: '
     'expected values are computed from the model AST by harness/props/c16.py (py_of)',
     'harness: generators, driver of the implementation, parser of the printed observations',
+    'hand-written model Lang/Utf8.v of UTF-8 encoding / strict decoding (what FileStream / StdinStream do with the bytes); tied by the byte-file cases and the per-program fingerprint',
 ]
 ASSUMPTIONS = ['quoted atoms contain no backslash (the grammar cannot express one); to_python is specified for proper lists only',
                'the tail of a [..|T] pattern is a variable (grammar)']
@@ -52,8 +61,196 @@ VARS = ['X', 'Y', 'Tail', '_G', 'Abc']
 FNAMES = ['f', 'g', 'foo', 'point', 'hello world', "it's", 'é', 'A', '123', '[]', '']
 BINOPS = ['=', '\\=', '==', '\\==', '<', '>', '=<', '>=']
 
+@functools.lru_cache(None)
+def text_layer_chars():
+    """characters that a text layer of Python may treat specially, computed from this interpreter (nothing listed by hand but
+    NUL, ctrl-Z and the byte order marks): everything str.splitlines breaks a line at, everything str.isspace, the controls"""
+    br, sp = [], []
+    for cp in list(range(0, 0xD800)) + list(range(0xE000, 0x10000)):
+        c = chr(cp)
+        if c == '\\':
+            continue
+        if len(('a' + c + 'b').splitlines()) > 1: br.append(c)
+        elif c.isspace(): sp.append(c)
+    ctl = [chr(c) for c in range(0, 32)] + ['\x7f'] + [chr(c) for c in range(0x80, 0xa0)]
+    return {'breaks': tuple(br), 'spaces': tuple(sp), 'controls': tuple(ctl), 'marks': ('\ufeff', '\ufffe', '\x00', '\x1a')}
+
+def rnd_text_layer_atom(rng):
+    """an atom text of ordinary characters with line breaks of every kind (CR LF, lone CR, VT, FF, FS..RS, NEL, LS, PS),
+    other white space, control characters and byte order marks in it"""
+    cl = text_layer_chars()
+    out = []
+    for _ in range(rng.choice([1, 2, 2, 3, 4, 6])):
+        r = rng.random()
+        if r < 0.30: out.append(rng.choice(['a', 'b', 'line', 'x y', '\u00e9', '\u65e5', 'Z', '7', "'"]))
+        elif r < 0.45: out.append('\r\n')
+        elif r < 0.55: out.append('\r')
+        elif r < 0.59: out.append('\n')
+        elif r < 0.62: out.append('\n\r')
+        elif r < 0.78: out.append(rng.choice(cl['breaks']))
+        elif r < 0.86: out.append(rng.choice(cl['spaces']))
+        elif r < 0.93: out.append(rng.choice(cl['controls']))
+        else: out.append(rng.choice(cl['marks']))
+    return ''.join(out)
+
 def rnd_atom(rng):
-    return ['atom', rng.choice(PLAIN) if rng.random() < 0.4 else rng.choice(QUOTED)]
+    r = rng.random()
+    if r < 0.12: return ['atom', rnd_text_layer_atom(rng)]
+    return ['atom', rng.choice(PLAIN) if r < 0.45 else rng.choice(QUOTED)]
+
+# ---- print-ambiguous literals: different literals whose text is the same once the quotes are left out
+
+def flat_text(t, sep=',', atoms='raw'):
+    """the text of a literal as a printer that does not quote atoms shows it (str(), a log line, a debug comment);
+    atoms='source': atoms in source spelling; atoms='repr': Python repr of the name unless it starts like a word"""
+    k = t[0]
+    if k == 'atom':
+        if atoms == 'source': return ast_io.atom_text(t[1])
+        if atoms == 'repr' and not (t[1][:1].isalpha() or t[1][:1] == '_'): return repr(t[1])
+        return t[1]
+    if k in ('num', 'var'): return t[1]
+    if k == 'fun':
+        name = flat_text(['atom', t[1]], sep, atoms)
+        return '%s(%s)' % (name, sep.join(flat_text(a, sep, atoms) for a in t[2])) if t[2] else name
+    if k == 'list': return '[' + sep.join(flat_text(a, sep, atoms) for a in t[1]) + ']'
+    if k == 'pair':
+        items, tail = [t[1]], t[2]
+        while tail[0] == 'pair':
+            items.append(tail[1]); tail = tail[2]
+        return '[' + sep.join(flat_text(a, sep, atoms) for a in items) + '|' + flat_text(tail, sep, atoms) + ']'
+    raise ValueError(t)
+
+def _subterm_paths(t, p=()):
+    yield p
+    k = t[0]
+    if k == 'fun':
+        for i, a in enumerate(t[2]): yield from _subterm_paths(a, p + ((2, i),))
+    elif k == 'list':
+        for i, a in enumerate(t[1]): yield from _subterm_paths(a, p + ((1, i),))
+    elif k == 'pair':
+        yield from _subterm_paths(t[1], p + ((1, None),))
+
+def _get(t, p):
+    for slot, i in p:
+        t = t[slot] if i is None else t[slot][i]
+    return t
+
+def _put(t, p, new):
+    if not p: return new
+    (slot, i), rest = p[0], p[1:]
+    t = list(t)
+    if i is None:
+        t[slot] = _put(t[slot], rest, new)
+    else:
+        t[slot] = list(t[slot]); t[slot][i] = _put(t[slot][i], rest, new)
+    return t
+
+def ambiguate(rng, t):
+    """a literal that differs from t and reads like t when printed without quotes: one subterm, or a run of neighbouring
+    arguments / list items (with the separators between them), or a list pattern's inside, becomes ONE atom whose name is
+    that text; a number, a variable or `_` becomes the atom of that spelling.  None if the text cannot be an atom name."""
+    sep = rng.choice([',', ',', ', '])
+    style = rng.choice(['raw', 'raw', 'raw', 'source', 'repr'])
+    paths = list(_subterm_paths(t))
+    for _ in range(8):
+        p = rng.choice(paths)
+        u = _get(t, p)
+        r = rng.random()
+        new = None
+        if u[0] in ('fun', 'list') and len(u[2 if u[0] == 'fun' else 1]) >= 2 and r < 0.6:
+            slot = 2 if u[0] == 'fun' else 1
+            args = u[slot]
+            i = rng.randrange(0, len(args) - 1)
+            j = rng.randrange(i + 1, len(args))
+            merged = ['atom', sep.join(flat_text(a, sep, style) for a in args[i:j + 1])]
+            new = list(u); new[slot] = args[:i] + [merged] + args[j + 1:]
+        elif u[0] == 'pair' and r < 0.6:
+            new = ['list', [['atom', flat_text(u, sep, style)[1:-1]]]]
+        elif u[0] == 'atom':
+            new = ['atom', rng.choice([ast_io.atom_text(u[1], True), repr(u[1]), u[1] + ' ', ' ' + u[1], '"' + u[1] + '"'])]
+        elif p or u[0] in ('num', 'var'):
+            new = ['atom', flat_text(u, sep, style)]
+        if new is None or new == u:
+            continue
+        v = _put(t, p, new)
+        if any('\\' in a for a in atoms_of(v)) or v == t:
+            continue
+        return v
+    return None
+
+SIMPLE_ATOMS = ['a', 'b', 'i', 'x', 'y', 'foo', 'h', 'nil', 'aB', 'A', 'X', '_', '_x', 'two words', "it's", '1', '1.0', '0', '[]', "'", '\u00e9', 'a|b', '']
+
+def rnd_simple(rng, depth, top=True):
+    """a small literal with mostly word-like atoms (the kind whose unquoted print can be mistaken for structure)"""
+    r = rng.random()
+    if not top and (depth <= 0 or r < 0.35):
+        r = rng.random()
+        if r < 0.62: return ['atom', rng.choice(SIMPLE_ATOMS)]
+        if r < 0.76: return ['num', rng.choice(NUMS)]
+        if r < 0.82: return ['list', []]
+        if r < 0.94: return ['var', rng.choice(VARS)]
+        return ['var', '_']
+    r = rng.random()
+    n = rng.choice([1, 2, 2, 2, 3])
+    if r < 0.5:
+        return ['fun', rng.choice(['f', 'g', 'h', 'foo', 'two words', 'A', '']), [rnd_simple(rng, depth - 1, False) for _ in range(n)]]
+    if r < 0.85:
+        return ['list', [rnd_simple(rng, depth - 1, False) for _ in range(n)]]
+    t = ['var', rng.choice(['Tail', 'X', '_'])]
+    for x in reversed([rnd_simple(rng, depth - 1, False) for _ in range(n)]):
+        t = ['pair', x, t]
+    return t
+
+def confusable_group(rng):
+    """2-4 DIFFERENT atom names of one program that a normalising layer would identify.  A relation is chosen first -
+    Unicode normal forms (NFC / NFD / NFKC / NFKD), case mappings, blanks and invisible characters around the name, the special
+    character dropped - then the name and its distinct images under it; alone, as functor names, as arguments, in lists"""
+    import unicodedata as U
+    from lib import emitcheck
+    cl = emitcheck.unicode_classes()
+    rel = rng.choice(['norm', 'norm', 'case', 'case', 'blank', 'drop'])
+    if rel == 'norm':
+        ch = rng.choice(cl[rng.choice(['norm_ascii', 'norm_ascii_prefix', 'ident_renamed'])])
+    elif rel == 'case':
+        ch = rng.choice(cl[rng.choice(['case_ascii', 'case_ascii_prefix', 're_ignorecase', 'ident_start'])])
+    else:
+        ch = emitcheck.rnd_lookalike_char(rng)
+    base = rng.choice(['', 'a', 'ab', 'Ab', 'x1', 'A']) + ch + rng.choice(['', 'b', 'B', '1', '_'])
+    if rng.random() < 0.25:
+        base = rng.choice([q for q in QUOTED if not q.isascii()])
+    if rel == 'norm': forms = [U.normalize(f, base) for f in ('NFD', 'NFC', 'NFKC', 'NFKD')] + [U.normalize('NFD', base.upper())]
+    elif rel == 'case': forms = [base.lower(), base.upper(), base.casefold(), base.swapcase(), base.title()]
+    elif rel == 'blank': forms = [base + ' ', ' ' + base, base + '\u200d', '\ufeff' + base, base + '\n', '\t' + base, base.strip() or 'a']
+    else: forms = [''.join(c for c in base if c.isascii()), ''.join(c for c in base if c.isalnum()), base[:-1], base[1:]]
+    names = [base]
+    for f in forms:
+        if f not in names and '\\' not in f:
+            names.append(f)
+    if len(names) == 1:
+        names.append(base + 'x')
+    rest = names[1:]
+    rng.shuffle(rest)
+    picked = [base] + rest[:3]
+    rng.shuffle(picked)
+    shape = rng.choice(['atom', 'atom', 'arg', 'name', 'list'])
+    if shape == 'atom': return [['atom', n] for n in picked]
+    if shape == 'arg': return [['fun', 'f', [['atom', n], ['var', 'X']]] for n in picked]
+    if shape == 'name': return [['fun', n, [['atom', 'a']]] for n in picked]
+    return [['list', [['atom', n], ['atom', picked[0]]]] for n in picked]
+
+def ambiguous_group(rng):
+    """2-4 DIFFERENT literals of one program that print alike without quotes, e.g. f(a,b) f('a,b') f('a', b) 'f(a,b)'"""
+    base = rnd_simple(rng, rng.choice([1, 1, 2, 2, 3]))
+    group = [base]
+    for _ in range(rng.choice([1, 2, 3])):
+        v = ambiguate(rng, rng.choice(group))
+        if v is not None and v not in group:
+            group.append(v)
+    if rng.random() < 0.35:
+        w = rng.choice([lambda x: ['fun', 'w', [x]], lambda x: ['list', [x]], lambda x: ['fun', 'k', [['atom', 'c'], x]]])
+        group = [w(x) for x in group]
+    rng.shuffle(group)
+    return group
 
 def rnd_lit(rng, depth, allow_var=True):
     r = rng.random()
@@ -228,7 +425,13 @@ def make_case(rng, lits):
     clauses.append(['eq', [['var', 'A'], ['var', 'B']], ['call', '=', [['var', 'A'], ['var', 'B']]]])
     for j, a in enumerate(atoms):
         clauses.append(['at%d' % j, [['atom', a]], ['true']])
-    src = ast_io.program_text(clauses)
+    # all literals of the program together in ONE clause: in one head, and in one body
+    clauses.append(['allh', list(lits), ['true']])
+    goals = [['call', '=', [['var', 'Res%d' % i], lit]] for i, lit in enumerate(lits)]
+    body = goals[-1]
+    for g in reversed(goals[:-1]):
+        body = ['and', g, body]
+    clauses.append(['allb', [['var', 'Res%d' % i] for i in range(len(lits))], body])
     muts = [mutate_leaf(rng, l) for l in lits]
     for i, m in enumerate(muts):
         if m is not None:
@@ -236,17 +439,62 @@ def make_case(rng, lits):
             # a term that differs in one constant never unifies with the literal: \+ succeeds exactly once
             clauses.append(['neg%d' % i, vargs, ['not', ['call', '=', [lits[i], m]]]])
             clauses.append(['pos%d' % i, vargs, ['call', '=', [lits[i], lits[i]]]])
-    src = ast_io.program_text(clauses)
+    # the layout between clauses is white space of the grammar: LF, CR LF, lone CR, blanks, tabs
+    sep = rng.choice(['\n', '\n', '\r\n', '\r\n', '\r', '\n\n', ' ', '\t\r\n ', '\r\r\n'])
+    src = sep.join(ast_io.clause_text(c) for c in clauses) + sep
+    # the part of the program that is also given to the compiler through its other entry points (parsing dominates the cost)
+    small = [c for c in clauses if c[0].startswith(('fact', 'body', 'at'))]
+    src_min = sep.join(ast_io.clause_text(c) for c in small) + sep
     pool = (atoms or ['a']) + ['[]', 'zz', '']
     calls = [[rng.random() < 0.4, rng.choice(pool)] for _ in range(rng.choice([4, 8, 12, 16]))]
-    return {'src': src, 'lits': lits, 'envs': envs, 'atoms': atoms, 'muts': muts, 'clauses': clauses, 'atom_calls': calls}
+    return {'src': src, 'src_min': src_min, 'lits': lits, 'envs': envs, 'atoms': atoms, 'muts': muts, 'clauses': clauses, 'atom_calls': calls,
+            'cli_sub': rng.random() < 0.06, 'file_opts': rng.random() < 0.5}
+
+# ---- files given as BYTES: what the file / command-line entry points read (strict UTF-8, no line-end or BOM handling)
+
+INVALID_UTF8 = [[0x80], [0xBF], [0xC3], [0xE2, 0x82], [0xF0, 0x9F, 0x98], [0xC0, 0x80], [0xC1, 0xBF], [0xE0, 0x80, 0x80], [0xE0, 0x9F, 0xBF],
+                [0xF0, 0x80, 0x80, 0x80], [0xF0, 0x8F, 0xBF, 0xBF], [0xED, 0xA0, 0x80], [0xED, 0xBF, 0xBF], [0xF4, 0x90, 0x80, 0x80],
+                [0xF5, 0x80, 0x80, 0x80], [0xF8, 0x88, 0x80, 0x80, 0x80], [0xFE], [0xFF], [0xC3, 0x28], [0xE2, 0x28, 0xA1]]
+BOUNDARY_UTF8 = [[0x7F], [0xC2, 0x80], [0xDF, 0xBF], [0xE0, 0xA0, 0x80], [0xED, 0x9F, 0xBF], [0xEE, 0x80, 0x80], [0xEF, 0xBF, 0xBF],
+                 [0xF0, 0x90, 0x80, 0x80], [0xF4, 0x8F, 0xBF, 0xBF], [0xEF, 0xBB, 0xBF], [0x0D], [0x0D, 0x0A], [0xC2, 0x85], [0xE2, 0x80, 0xA8], [0x00], [0x1A]]
+
+def bytes_case(rng):
+    """a file p('<payload>'). whose payload is the UTF-8 form of a random atom text, usually damaged or extended by byte
+    sequences at the edges of the encoding (shortest/longest forms of each length, surrogates, overlong forms, truncated
+    and stray bytes, byte order mark, CR / CR LF / NEL / LS, NUL, ctrl-Z); sometimes a byte order mark in front of the file"""
+    text = rnd_text_layer_atom(rng) if rng.random() < 0.6 else rng.choice(QUOTED)
+    payload = list(text.encode('utf8'))
+    for _ in range(rng.choice([0, 1, 1, 2])):
+        ins = rng.choice(INVALID_UTF8) if rng.random() < 0.5 else rng.choice(BOUNDARY_UTF8)
+        pos = rng.choice([0, len(payload), rng.randrange(len(payload) + 1)])
+        payload[pos:pos] = ins
+    if rng.random() < 0.15 and payload:
+        del payload[rng.randrange(len(payload))]
+    payload = [b for b in payload if b not in (0x27, 0x5C)]
+    pre = rng.choice([[], [], [], [], [0xEF, 0xBB, 0xBF], [0x0D, 0x0A], [0xFF, 0xFE]])
+    nl = rng.choice([[0x0A], [0x0D, 0x0A], [0x0D], []])
+    return {'kind': 'bytes', 'bytes': pre + list(b"p('") + payload + list(b"').") + nl}
 
 def gen(rng, tier):
-    n = 150 if tier == 'quick' else 2500
+    n = 100 if tier == 'quick' else 1800
     cases = []
     for _ in range(n):
         lits = [rnd_lit(rng, rng.choice([0, 1, 2, 2, 3, 3, 4, 6])) for _ in range(rng.choice([1, 2, 3, 4]))]
         cases.append(make_case(rng, lits))
+    for _ in range(40 if tier == 'quick' else 600):
+        # different literals of ONE program whose texts coincide when the quotes are left out
+        cases.append(make_case(rng, ambiguous_group(rng)))
+    for _ in range(12 if tier == 'quick' else 200):
+        # different names of one program that differ only up to Unicode normalisation, case or surrounding blanks
+        cases.append(make_case(rng, confusable_group(rng)))
+    for _ in range(12 if tier == 'quick' else 150):
+        # atoms full of characters that text layers treat specially, alone and inside terms
+        lits = [['atom', rnd_text_layer_atom(rng)], ['fun', rng.choice(FNAMES), [['atom', rnd_text_layer_atom(rng)], ['list', [['atom', rnd_text_layer_atom(rng)]]]]]]
+        if rng.random() < 0.5:
+            lits.append(['fun', rnd_text_layer_atom(rng), [['var', 'X']]])
+        cases.append(make_case(rng, lits))
+    for _ in range(40 if tier == 'quick' else 1500):
+        cases.append(bytes_case(rng))
     return cases
 
 def builtin_corpus():
@@ -271,12 +519,32 @@ def builtin_corpus():
         [A('é'), A('é'), A('\U0001F600'), F('\U0001F600', A('\U0001F600')), L(A('日本語'), A('ß'))],
         [A('two\nlines'), A('x\r\ny'), F('two\nlines', A('\n'))],
     ]
-    return [make_case(rng, g) for g in groups]
+    cl = text_layer_chars()
+    br = list(cl['breaks'])
+    # every line-breaking character (computed: str.splitlines), alone, doubled with LF, inside a name, and the marks
+    groups.append([A('a' + c + 'b') for c in br[:4]])
+    groups.append([A('a' + c + 'b') for c in br[4:8]])
+    groups.append([A('a' + c + 'b') for c in br[8:]])
+    groups.append([A('\r'), A('\r\n'), A('\n\r'), A('a\r\r\nb')])
+    groups.append([F('r' + c + 's', A(c), L(A(c + '\n'))) for c in br[:6]])
+    groups.append([A(m + 'x') for m in cl['marks']] + [A('x' + cl['marks'][0])])
+    groups.append([L(A('x'), A('y')), L(A('x,y')), L(A('x'), A(',y')), A('[x,y]')])
+    groups.append([F('f', A('a'), A('b')), F('f', A('a,b')), F('f', A('a'), A('b'), A('c')), F('f', A('a,b'), A('c')), F('f', A('a'), A('b,c'))])
+    groups.append([F('g', F('h', A('i'))), F('g', A('h(i)')), A('g(h(i))'), F('g', F('h', A('i')), A('j')), F('g', A('h(i),j'))])
+    groups.append([F('f', V('X')), F('f', A('X')), F('f', V('_')), F('f', A('_')), F('f', ['num', '1']), F('f', A('1'))])
+    groups.append([P([A('a')], V('T')), L(A('a|T')), L(A('a'), V('T')), L(A('a'), A('T'))])
+    L = [make_case(rng, g) for g in groups]
+    for seq in INVALID_UTF8 + BOUNDARY_UTF8:
+        L.append({'kind': 'bytes', 'bytes': list(b"p('a") + [b for b in seq if b not in (0x27, 0x5C)] + list(b"z').\n")})
+    L.append({'kind': 'bytes', 'bytes': [0xEF, 0xBB, 0xBF] + list(b"p('a').\n")})
+    return L
 
 def model_expr(case):
+    if case.get('kind') == 'bytes':
+        return '(run_bytes %s)' % g_list(['%d%%N' % b for b in case['bytes']])
     envs = g_list([g_list(['(%s, %s)' % (g_str(v), ast_io.g_sterm(t)) for v, t in env.items()]) for env in case['envs']])
     calls = g_list(['(%s, %s)' % ('true' if e else 'false', g_str(n)) for e, n in case['atom_calls']])
-    return '(run_c16 %s %s %s)' % (g_str(case['src']), envs, calls)
+    return '(run_c16b %s %s %s)' % (g_str(case['src']), envs, calls)
 
 _UNSPEC = ['unspecified']
 
@@ -369,7 +637,161 @@ def _succeeds(E, a, b, after=None):
         if after: r = after()
     return [n, r]
 
+def _struct(yp, X):
+    return TM.term_obs(TM.ImplTerms([yp]).read(X))
+
+def _scratch():
+    from lib import coqrun
+    d = os.path.join(coqrun.VERIF, '.work', 'c16-%d' % os.getpid())
+    os.makedirs(d, exist_ok=True)
+    return d
+
+def _cli_inprocess(args, stdin_bytes, d):
+    """the command line's main function (click), called in this process: yldpc -o <file> <args>, standard input = the bytes"""
+    from yldprolog import compiler
+    outp = os.path.join(d, 'out.py')
+    if os.path.exists(outp):
+        os.unlink(outp)
+    old = sys.stdin
+    sys.stdin = io.TextIOWrapper(io.BytesIO(stdin_bytes), encoding='utf8')
+    try:
+        compiler.main.main(args=['-o', outp] + args, prog_name='yldpc', standalone_mode=False)
+    finally:
+        sys.stdin = old
+    with open(outp, 'rb') as f:
+        return f.read().decode('utf8')
+
+def _cli_real(args, stdin_bytes, d):
+    """the real command line: python -m yldprolog.compiler in a process of its own"""
+    outp = os.path.join(d, 'out_real.py')
+    if os.path.exists(outp):
+        os.unlink(outp)
+    env = {'PATH': os.environ.get('PATH', '/usr/bin:/bin'), 'PYTHONPATH': os.path.join(os.environ.get('VERIF_REPO', '/repo'), 'src'),
+           'LC_ALL': 'C.UTF-8', 'LANG': 'C.UTF-8', 'PYTHONHASHSEED': '0', 'PYTHONDONTWRITEBYTECODE': '1', 'HOME': d}
+    r = subprocess.run([sys.executable, '-m', 'yldprolog.compiler', '-o', outp] + args, input=stdin_bytes, capture_output=True, cwd=d, env=env, timeout=120)
+    if r.returncode != 0:
+        raise RuntimeError('exit status %d: %s' % (r.returncode, r.stderr.decode('utf8', 'replace')[-150:]))
+    with open(outp, 'rb') as f:
+        return f.read().decode('utf8')
+
+def _observe_min(E, code, case):
+    """what the literals of a compiled text denote (fact and body position: Python value and the term read structurally),
+    and whether the atoms are the engine's atoms of those names"""
+    yp = E.YP(); yp.load_script_from_string(code)
+    lits = []
+    for i, lit in enumerate(case['lits']):
+        vs = named_vars(lit)
+        o = []
+        for pred in ('fact', 'body'):
+            X = yp.variable()
+            o.append([[_topy(E, X), _struct(yp, X)] for _ in yp.query('%s%d' % (pred, i), [X] + [yp.variable() for _ in vs])])
+        lits.append(o)
+    atoms = []
+    for j, a in enumerate(case['atoms']):
+        X = yp.variable()
+        atoms.append([[E.get_value(X) is yp.atom(a), _struct(yp, X)] for _ in yp.query('at%d' % j, [X])])
+    return {'lits': lits, 'atoms': atoms}
+
+def _entry_points(E, case, code):
+    """The facts fact_i(L), the rules body_i(R) :- R = L and the facts at_j(A) of the program (same text, same layout) given to
+    the compiler in every way there is: as a string, as a file holding exactly the UTF-8 bytes of the text (with the default
+    options or an options class), through the command line from a file and from standard input.
+    -> name -> ['same'] (denotes what the whole program compiled from a string denotes; for the other entry points: same
+    Python text as from the string) | ['differs', same denotations?, detail] | ['raised', ..]"""
+    from yldprolog import compiler
+    src = case['src_min']
+    main_obs = _observe_min(E, code, case)
+    def judge(text):
+        try:
+            obs = _observe_min(E, text, case)
+        except Exception as e:
+            return ['differs', False, 'its output cannot be loaded / queried: %s' % type(e).__name__]
+        detail = ''
+        if obs != main_obs:
+            for i, (a, b) in enumerate(zip(obs['lits'], main_obs['lits'])):
+                if a != b:
+                    detail = 'literal %d denotes %r, in the whole program compiled from a string %r' % (i, a[0][:1], b[0][:1])
+                    break
+            else:
+                detail = 'the atoms differ'
+        return ['differs', obs == main_obs, detail[:400]]
+    out = {}
+    try:
+        min_code = compiler.compile_prolog_from_string(src)
+    except RecursionError:
+        return {'string': ['skipped', 'RecursionError']}
+    except Exception as e:
+        return {'string': ['raised', type(e).__name__, str(e)[:200]]}
+    r = judge(min_code)
+    out['string'] = ['same'] if r[1] else r
+    try:
+        data = src.encode('utf8')
+    except UnicodeEncodeError:
+        out['file'] = ['skipped', 'the text has no UTF-8 form']
+        return out
+    d = _scratch()
+    path = os.path.join(d, 'prog.prolog')
+    with open(path, 'wb') as f:
+        f.write(data)
+    opts = (ast_io.Ctx,) if case.get('file_opts') else ()
+    runs = [('file', lambda: compiler.compile_prolog_from_file(path, *opts)),
+            ('cli_file', lambda: _cli_inprocess([path], b'', d)),
+            ('cli_stdin', lambda: _cli_inprocess(['-'], data, d))]
+    if case.get('cli_sub'):
+        runs += [('real_cli_file', lambda: _cli_real([path], b'', d)), ('real_cli_stdin', lambda: _cli_real(['-'], data, d))]
+    for name, fn in runs:
+        try:
+            text = fn()
+        except RecursionError:
+            out[name] = ['skipped', 'RecursionError']
+            continue
+        except BaseException as e:
+            out[name] = ['raised', type(e).__name__, str(e)[:200]]
+            continue
+        out[name] = ['same'] if text == min_code else judge(text)
+    shutil.rmtree(d, ignore_errors=True)
+    return out
+
+def _impl_bytes(case):
+    """the bytes as a file through compile_prolog_from_file and the command line (file, standard input); when they are
+    valid UTF-8 also as a string: -> per entry point ['atom', name of the atom p(X) answers] | ['raised', class]"""
+    from yldprolog import engine as E
+    from yldprolog import compiler
+    data = bytes(case['bytes'])
+    d = _scratch()
+    path = os.path.join(d, 'bytes.prolog')
+    with open(path, 'wb') as f:
+        f.write(data)
+    runs = [('file', lambda: compiler.compile_prolog_from_file(path)),
+            ('cli_file', lambda: _cli_inprocess([path], b'', d)),
+            ('cli_stdin', lambda: _cli_inprocess(['-'], data, d))]
+    try:
+        text = data.decode('utf8')
+        runs.append(('string', lambda: compiler.compile_prolog_from_string(text)))
+    except UnicodeDecodeError:
+        pass
+    out = {}
+    for name, fn in runs:
+        try:
+            code = fn()
+        except RecursionError:
+            raise
+        except BaseException as e:
+            cls = type(e).__name__
+            if cls == 'ClickException':
+                cls = 'CompilerError'          # the command line reports a CompilerError of the library as a ClickException
+            out[name] = ['raised', 'CompilerError' if cls == 'CompilerSyntaxError' else cls]
+            continue
+        yp = E.YP(); yp.load_script_from_string(code)
+        X = yp.variable()
+        vals = [E.get_value(X) for _ in yp.query('p', [X])]
+        out[name] = ['atom', vals[0].name()] if len(vals) == 1 and isinstance(vals[0], E.Atom) and vals[0] is yp.atom(vals[0].name()) else ['other', len(vals)]
+    shutil.rmtree(d, ignore_errors=True)
+    return {'bytes': out}
+
 def impl(case):
+    if case.get('kind') == 'bytes':
+        return _impl_bytes(case)
     from yldprolog import engine as E
     from yldprolog.compiler import compile_prolog_from_string
     try:
@@ -385,6 +807,11 @@ def impl(case):
     except Exception as e:
         ast = ['raised', type(e).__name__]
     out = {'compile': ['ok'], 'ast': ast, 'lits': [], 'atoms': []}
+    out['entries'] = _entry_points(E, case, code)
+    # all literals together in one head / one body
+    for pred in ('allh', 'allb'):
+        Rs = [yp.variable() for _ in case['lits']]
+        out[pred] = [[[_topy(E, R), _struct(yp, R)] for R in Rs] for _ in yp.query(pred, Rs)]
     for i, lit in enumerate(case['lits']):
         vs = named_vars(lit)
         env = case['envs'][i]
@@ -496,6 +923,15 @@ def impl(case):
                            _succeeds(E, yp.atom(a), yp.functor(a, []))[0], _succeeds(E, yp.functor(a, []), yp2.atom(a))[0]]
         r['to_python'] = enc(E.to_python(yp.atom(a)))
         out['atoms'].append(r)
+    # atoms of different names are different objects, do not unify, and the fact at_i(name_i) does not answer for name_j
+    clash = []
+    names = case['atoms'][:8]
+    for i, a in enumerate(names):
+        for j, b in enumerate(names):
+            if i < j and (yp.atom(a) is yp.atom(b) or _succeeds(E, yp.atom(a), yp2.atom(b))[0] or _succeeds(E, yp.functor(a, [7]), yp.functor(b, [7]))[0]
+                          or sum(1 for _ in yp.query('at%d' % i, [yp.atom(b)])) or sum(1 for _ in yp.query('at%d' % j, [yp2.atom(a)]))):
+                clash.append([a, b])
+    out['atom_clashes'] = clash
     # the atom tables of two fresh engines under a sequence of atom(name) calls: which calls return the same object
     e1, e2 = E.YP(), E.YP()
     objs = [(e2 if e else e1).atom(n) for e, n in case['atom_calls']]
@@ -586,14 +1022,57 @@ def _expected_from(lits, case, io):
             return 'literal %d: query variable still bound after the query' % i
     return None
 
+ENTRY_NAMES = {'string': 'compile_prolog_from_string (the fact_i / body_i / at_j clauses alone)', 'file': 'compile_prolog_from_file (the UTF-8 bytes of the same text)',
+               'cli_file': 'the command line reading the file',
+               'cli_stdin': 'the command line reading standard input', 'real_cli_file': 'python -m yldprolog.compiler <file>',
+               'real_cli_stdin': 'python -m yldprolog.compiler - (standard input)'}
+
+def _entries_and_all(lits, case, io):
+    for name, r in io.get('entries', {}).items():
+        if r[0] == 'raised':
+            return 'the program compiles from a string, but %s raised %s: %s' % (ENTRY_NAMES.get(name, name), r[1], r[2])
+        if r[0] == 'differs' and not r[1]:
+            return 'compiled through %s: %s' % (ENTRY_NAMES.get(name, name), r[2])
+    for pred, what in (('allh', 'all literals in one clause head'), ('allb', 'all literals in one clause body')):
+        a = io[pred]
+        if len(a) != 1 or len(a[0]) != len(lits):
+            return '%s: %d answers instead of one' % (what, len(a))
+        for i, lit in enumerate(lits):
+            free = py_of(lit, {})
+            if not has_raise(free) and a[0][i][0] != free:
+                return '%s: to_python of literal %d gives %r, expected %r' % (what, i, a[0][i][0], free)
+    return None
+
+def _bytes_expected(data):
+    """what Python's strict codec says the file holds: the atom text between p(' and ') or the exception class"""
+    try:
+        text = bytes(data).decode('utf8')
+    except UnicodeDecodeError:
+        return ['raised', 'UnicodeDecodeError']
+    i, j = text.find("p('"), text.rfind("')")
+    if text[:i].strip(' \t\r\n'):
+        return ['raised', 'CompilerError']
+    return ['atom', text[i + 3:j]]
+
+def _oracle_bytes(case, io):
+    want = _bytes_expected(case['bytes'])
+    for name, got in io['bytes'].items():
+        if got != want:
+            return 'a file of the bytes %r read through %s: %r, expected %r (strict UTF-8, nothing converted or dropped)' % (bytes(case['bytes']), ENTRY_NAMES.get(name, name), got, want)
+    return None
+
 def oracle(case, io):
     if not isinstance(io, dict):
         return None
+    if case.get('kind') == 'bytes':
+        return _oracle_bytes(case, io)
     if io['compile'][0] != 'ok':
         return 'a program of literals does not compile: %r' % (io['compile'],)
-    r = _expected_from(case['lits'], case, io)
+    r = _expected_from(case['lits'], case, io) or _entries_and_all(case['lits'], case, io)
     if r:
         return r
+    if io.get('atom_clashes'):
+        return 'atoms of different names are identified (same object, or unify, or answer each other\'s facts): %r' % (io['atom_clashes'][:3],)
     if io['nil'] != NIL_WANT:
         return 'empty list / raw Python values: %r, expected %r' % (io['nil'], NIL_WANT)
     for j, (a, o) in enumerate(zip(case['atoms'], io['atoms'])):
@@ -628,7 +1107,28 @@ def _unnumber(t):
 def compare(case, io, mo):
     if not isinstance(io, dict):
         return None
+    if case.get('kind') == 'bytes':
+        if mo[0] == 'undecodable': want = ['raised', 'UnicodeDecodeError']
+        elif mo[0] == 'syntax': want = ['raised', 'CompilerError']
+        elif mo[0] == 'atom': want = ['atom', mo[1]]
+        else: want = ['other']
+        for name, got in io['bytes'].items():
+            if got != want:
+                return 'a file of the bytes %r read through %s: %r, the model (utf8_decode, front) gives %r' % (bytes(case['bytes']), ENTRY_NAMES.get(name, name), got, want)
+        return None
+    mo, fp = mo
     mo, mlits, matoms = mo
+    # the UTF-8 bytes of the text as the model encodes it (Lang/Utf8.v; C16_file_bytes_roundtrip is about this encoder)
+    # are the bytes Python's codec produces (what the file entry points were given), and the model decodes them back
+    try:
+        b = case['src'].encode('utf8')
+        h = 0
+        for x in b:
+            h = (h * 257 + x + 1) % 1000000007
+        if fp != [len(b), h, 1]:
+            return 'UTF-8: the model encodes the source text to (length, hash, decodes back) %r, Python to %r' % (fp, [len(b), h, 1])
+    except UnicodeEncodeError:
+        pass
     if io.get('atom_calls') is not None and io['atom_calls'] != matoms:
         return 'atom identity: the calls %r return the objects (numbered by creating call) %r, the atom table model gives %r' % (case['atom_calls'], io['atom_calls'], matoms)
     if mo[0] != 'ok':
@@ -646,7 +1146,7 @@ def compare(case, io, mo):
     lits = _model_lits(case, prog)
     if lits is None:
         return 'model program lacks a fact clause'
-    r = _expected_from([_unnumber(l) for l in lits], case, io)
+    r = _expected_from([_unnumber(l) for l in lits], case, io) or _entries_and_all([_unnumber(l) for l in lits], case, io)
     if r:
         return r
     # the values that the proved specification lit_py (Lang/Denote.v, theorem C16_to_python_literal) prescribes, computed
@@ -668,6 +1168,11 @@ def compare(case, io, mo):
             return 'literal %d: the compiled fact builds the term %r, the literal denotes %r' % (i, o['struct'], mv[2])
         if o['api_struct'] != [mv[2], mv[2]]:
             return 'literal %d: the API constructors build %r, the literal denotes %r' % (i, o['api_struct'], mv[2])
+        for pred in ('allh', 'allb'):
+            if [io[pred][0][i][1]] != [mv[2]]:
+                return 'literal %d, all literals in one clause (%s): the program builds the term %r, the literal denotes %r' % (i, pred, io[pred][0][i][1], mv[2])
+            if free != _UNSPEC and io[pred][0][i][0] != free:
+                return 'literal %d, all literals in one clause (%s): to_python gives %r, the specification (lit_py) prescribes %r' % (i, pred, io[pred][0][i][0], free)
         for pred in POSITIONS:
             if free != _UNSPEC and o[pred + '_free'] != [free]:
                 return 'literal %d in %s position: to_python gives %r, the specification (lit_py) prescribes %r' % (i, pred, o[pred + '_free'], free)
@@ -694,6 +1199,8 @@ def _interesting_atom(s):
     return any(ch in s for ch in "'\n\r") or any(ord(ch) > 127 for ch in s)
 
 def nontrivial(case, io):
+    if case.get('kind') == 'bytes':
+        return isinstance(io, dict) and any(b >= 0x80 or b == 0x0D for b in case['bytes'])
     if not isinstance(io, dict) or io['compile'][0] != 'ok':
         return False
     for lit in case['lits']:
@@ -704,9 +1211,16 @@ def nontrivial(case, io):
     return False
 
 def describe(case):
+    if case.get('kind') == 'bytes':
+        return {'file bytes': repr(bytes(case['bytes']))}
     return {'literals': [ast_io.term_text(l) for l in case['lits']], 'source': case['src']}
 
 def shrink(case):
+    if case.get('kind') == 'bytes':
+        b = case['bytes']
+        for i in range(4, len(b) - 3):
+            yield dict(case, bytes=b[:i] + b[i + 1:])
+        return
     lits = case['lits']
     rng = random.Random(1)
     if len(lits) > 1:
@@ -730,7 +1244,12 @@ def distribution(cases, obs):
         if k == 'list': return 1 + max([depth(a) for a in t[1]] + [0])
         if k == 'pair': return 1 + max(depth(t[1]), depth(t[2]))
         return 0
+    d['byte_files'] = {}
     for c, o in zip(cases, obs):
+        if c.get('kind') == 'bytes':
+            k = o['bytes'].get('file', ['?'])[0] if isinstance(o, dict) else '?'
+            d['byte_files'][k] = d['byte_files'].get(k, 0) + 1
+            continue
         if isinstance(o, dict) and o['compile'][0] != 'ok':
             d['compile_failed'] += 1
         for lit in c['lits']:
